@@ -3,7 +3,7 @@
 //! Note that some array operations also operate on strings as arrays
 //! of characters.
 
-use serde_json::{Map, Value};
+use serde_json::{Map, Number, Value};
 
 use crate::error::Error;
 use crate::op::logic;
@@ -361,6 +361,41 @@ pub fn merge(items: &Vec<&Value>) -> Result<Value, Error> {
     )))
 }
 
+/// Numeric equality by value, whatever the JSON spelling of the numbers
+fn number_eq(first: &Number, second: &Number) -> bool {
+    fn as_int(num: &Number) -> Option<i128> {
+        num.as_u64()
+            .map(i128::from)
+            .or_else(|| num.as_i64().map(i128::from))
+            .or_else(|| {
+                num.as_f64()
+                    .filter(|f| f.fract() == 0.0 && f.abs() < 1e30)
+                    .map(|f| f as i128)
+            })
+    }
+    match (as_int(first), as_int(second)) {
+        (Some(x), Some(y)) => x == y,
+        (None, None) => first.as_f64() == second.as_f64(),
+        _ => false,
+    }
+}
+
+/// Structural equality of JSON values, comparing numbers by value
+fn deep_eq(first: &Value, second: &Value) -> bool {
+    match (first, second) {
+        (Value::Number(x), Value::Number(y)) => number_eq(x, y),
+        (Value::Array(x), Value::Array(y)) => {
+            x.len() == y.len() && x.iter().zip(y.iter()).all(|(a, b)| deep_eq(a, b))
+        }
+        (Value::Object(x), Value::Object(y)) => {
+            x.len() == y.len()
+                && x.iter()
+                    .all(|(key, a)| y.get(key).map_or(false, |b| deep_eq(a, b)))
+        }
+        _ => first == second,
+    }
+}
+
 /// Perform containment checks with "in"
 // TODO: make this a lazy operator, since we don't need to parse things
 // later on in the list if we find something that matches early.
@@ -377,7 +412,9 @@ pub fn in_(items: &Vec<&Value>) -> Result<Value, Error> {
         // implementation is relying on broken, undefined behavior, it seems
         // okay to update that behavior to work in a more intuitive way.
         Value::Null => Ok(Value::Bool(false)),
-        Value::Array(possibles) => Ok(Value::Bool(possibles.contains(needle))),
+        Value::Array(possibles) => Ok(Value::Bool(
+            possibles.iter().any(|possible| deep_eq(possible, needle)),
+        )),
         Value::String(haystack_string) => {
             // Note: the reference implementation uses the regular old
             // String.prototype.indexOf() function to check for containment,
